@@ -244,24 +244,41 @@ fn main() {
             }
         }
     });
-    // other dialects' notation is not part of the subset: inside a bracket set the texts of
-    // fnmatch's character classes, equivalence classes and collating symbols are ordinary
-    // members ('[', ':', letters) and the first ']' after a member closes the set
+    // other dialects' notation: the texts of fnmatch's character classes inside a bracket set.
+    // Where the text is NOT a complete class in any dialect ("[:digit:]" on its own is a plain
+    // set everywhere, "[[:digit]" never closes the class) the subset's reading is demanded; a
+    // complete class, collating symbol or equivalence class inside a set is outside the stated
+    // subset (fnmatch reads a class, a plain set parser reads members) - there only "compiles
+    // or is rejected, and matching returns" is demanded
     {
         let mut t = Tally::new();
-        let mut pats: Vec<String> = vec![];
+        let mut decided: Vec<String> = vec![];
+        let mut open: Vec<String> = vec![];
         for class in ["alnum", "alpha", "digit", "lower", "upper", "xdigit", "space", "punct", "blank", "cntrl", "graph", "print"] {
-            for shape in ["foo-[[:{}:]]*", "[[:{}:]]", "x[[:{}:]]y", "[![:{}:]]", "[[:{}:]-z]", "[a[:{}:]]*", "[[:{}]", "[:{}:]", "[[:{}:]", "[[.{}.]]", "[[={}=]]"] {
-                pats.push(shape.replace("{}", class));
+            for shape in ["[:{}:]", "[[:{}]", "x[:{}:]y", "[!:{}:]", "foo-[:{}:]*"] {
+                decided.push(shape.replace("{}", class));
+            }
+            for shape in ["foo-[[:{}:]]*", "[[:{}:]]", "x[[:{}:]]y", "[![:{}:]]", "[[:{}:]-z]", "[a[:{}:]]*", "[[:{}:]", "[[.{}.]]", "[[={}=]]"] {
+                open.push(shape.replace("{}", class));
             }
         }
         let mut names: Vec<String> = ["foo-1.0", "foo-d]", "foo-:]", "foo-[]", "a", "1", ":]", "[]", "d]", "x1y", "xd]y", "x:]y", "A]", "a]", "z]", "-z]", "t-z]", "b", ":", "[", "1]x", "a:]", "p]", ".]", "=]"].iter().map(|x| x.to_string()).collect();
-        names.extend(["foo-", "x]y", "]", "", "g]", "l]"].iter().map(|x| x.to_string()));
-        run.bound(format!("other dialects' notation: {} patterns with the texts of 12 fnmatch classes (and collating / equivalence forms) inside bracket sets x {} names", pats.len(), names.len()));
-        for p in &pats {
+        names.extend(["foo-", "x]y", "]", "", "g]", "l]", "xdy", "x:y", "foo-d", "foo-:1", "d", "t"].iter().map(|x| x.to_string()));
+        run.bound(format!("other dialects' notation: {} patterns in which the text of one of 12 fnmatch classes is a plain set (verdict demanded) and {} in which it is a complete class, collating symbol or equivalence class inside a set (only: no panic) x {} names", decided.len(), open.len(), names.len()));
+        for p in &decided {
             t.states += 1;
             t.transitions += names.len() as u64;
             check(&mut t, p, &names);
+        }
+        for p in &open {
+            t.states += 1;
+            t.evals += 1;
+            t.validated += 1;
+            let r = guard(|| Pattern::new(p).map(|c| names.iter().filter(|n| c.matches(n)).count()).is_ok());
+            match r {
+                Ok(_) => t.outcome("class-notation/returns (verdict not constrained)"),
+                Err(m) => t.violation(Violation::new("glob", case(p, None), json!("returns"), json!(format!("panic: {}", m)), "compiling or matching a glob panicked")),
+            }
         }
         run.merge(t);
     }
